@@ -193,3 +193,16 @@ def nonnull_invariant_bad(item_type):
 
 def nonnull_invariant_ok(item_type):
     return is_leaf_type(get_named_type(item_type)) and not is_list_type(get_nullable_type(item_type))
+
+
+def guard_bad_early_exit(fields, report):
+    for field in fields:
+        iface_args = field.iface.args
+        if not iface_args:
+            continue
+        for name, arg in iface_args.items():
+            if name not in field.args:
+                report(name)
+        for name, arg in field.args.items():
+            if name not in iface_args and arg.required:
+                report(name)
